@@ -6,7 +6,8 @@
 (*                    to (SwA[a], SwP[p]) in family FamSeq[f]       *)
 (*                    (0 = nobody)                                          *)
 (*   syn[f][h][a][p]  answer to a SYN from (FirstAddr(h), SynPort):         *)
-(*                    listener fd, 0 = no answer, -1 = RST, -9 = not probed *)
+(*                    listener fd, 0 = no answer, -1 = RST, -2 = bare ACK,  *)
+(*                    -9 = not probed                                       *)
 (*   conn             for every live connection <<client, child, fd reading *)
 (*                    client's data, fd reading child's data, answer to a   *)
 (*                    SYN re-using the client's 4-tuple (same coding)>>     *)
@@ -23,13 +24,14 @@ SwA == SelectSeq(AddrOrder, LAMBDA a : a \in SwAddrs)
 SwP == SetToSortSeq(SwPorts, LAMBDA x, y : x < y)
 
 One(s) == IF s = {} THEN 0 ELSE CHOOSE x \in s : TRUE
-SynCode(r) == IF r.reply = "synack" THEN One(r.obs) ELSE IF r.reply = "rst" THEN -1 ELSE 0
+SynCode(r) == IF r.reply = "synack" THEN One(r.obs)
+              ELSE IF r.reply = "rst" THEN -1 ELSE IF r.reply = "ack" THEN -2 ELSE 0
 
 SwUdp == [f \in 1..Len(FamSeq) |-> [h \in 1..NH |-> [a \in 1..Len(SwA) |-> [p \in 1..Len(SwP) |->
             One(ImplUdp(h, FamSeq[f], FirstAddr(h), ProbePort, SwA[a], SwP[p]))]]]]
 
 SwSyn == [f \in 1..Len(FamSeq) |-> [h \in 1..NH |-> [a \in 1..Len(SwA) |-> [p \in 1..Len(SwP) |->
-            IF SwA[a] = "lo" THEN -9
+            IF Local(h, SwA[a]) THEN -9
             ELSE SynCode(ImplSyn(h, FamSeq[f], FirstAddr(h), SynPort, SwA[a], SwP[p]))]]]]
 
 Clients == SelectSeq([i \in 1..Len(isock) |-> i],
@@ -39,7 +41,7 @@ SwConn == [k \in 1..Len(Clients) |->
             LET c == Clients[k]
                 m == isock[c].mate
             IN <<c, m, One(ImplData(c)), One(ImplData(m)),
-                 IF isock[c].addr = "lo" THEN -9
+                 IF Local(isock[c].h, isock[c].peer[1]) THEN -9
                  ELSE SynCode(ImplSyn(isock[c].h, isock[c].fam, isock[c].addr, isock[c].port,
                                       isock[c].peer[1], isock[c].peer[2]))>>]
 
